@@ -248,6 +248,7 @@ ASSUME Anchors ==
        = <<48, 15, 2, 1, 1, 97, 10, 10, 1, 14, 4, 0, 4, 0, 135, 1, 97>>
 
 (* ------------------------------- vector output ------------------------- *)
+PreRefs == << <<108, 100, 97, 112, 58, 47, 47, 120, 47>>, <<108, 100, 97, 112, 58, 47, 47, 121, 47, 111, 61, 122>> >>   \* "ldap://x/", "ldap://y/o=z"
 Emit ==
   ~EmitVectors \/ ph = 0 \/
   IF Dir = "req"
@@ -255,5 +256,8 @@ Emit ==
                                encs |-> RequestEncodings(v.op, v.a, v.id, v.some, v.ctrls)])>>)
   ELSE PrintT(<<"VEC", ToJson([k |-> "resp", kind |-> v.r.kind, op |-> KindName(v.r.kind), id |-> v.r.id, grp |-> grp,
                                expect |-> ResultOf(NormResp(v.r)), min |-> Enc(Response(v.r, v.emptyctl, v.expl)),
-                               encs |-> Encs(v)])>>)
+                               encs |-> Encs(v),
+                               \* a Search answered with a reference message first: the final result keeps its own referrals
+                               pre |-> IF v.r.kind = 5 THEN Enc(RefMsgTree(v.r.id, PreRefs)) ELSE <<>>,
+                               expect_pre |-> IF v.r.kind = 5 THEN SearchResultOf(NormResp(v.r), PreRefs) ELSE ResultOf(NormResp(v.r))])>>)
 =============================================================================
